@@ -711,6 +711,13 @@ class ExprMixin:
                 lo = hi = None
                 if B[0] is not None and B[0] > 0 and A[0] is not None and A[0] >= 0:
                     lo = 0
+                if B[0] is not None and B[0] > 0 and B[0] == B[1]:
+                    # division by a positive constant: integer enclosure of the quotient's range
+                    import math as _m
+                    if A[1] is not None:
+                        hi = _m.ceil(A[1] / B[0])
+                    if A[0] is not None and lo is None:
+                        lo = _m.floor(A[0] / B[0])
                 return st, AVal(kind="float", lo=lo, hi=hi, taint=taint)
             return st, AVal(kind="float" if fl else "int", taint=taint)
         if isinstance(op, ast.BitAnd):
@@ -738,8 +745,42 @@ class ExprMixin:
                 return st, AVal(lo=A[0] << B[0], hi=hi, kind="int", taint=taint)
             return st, AVal(kind="int", taint=taint)
         if isinstance(op, ast.Pow):
+            self.pow_ob(st, e, a, b)
             return st, AVal(kind="float" if fl else "int", taint=taint)
         return st, AVal(taint=taint)
+
+    def pow_ob(self, st: St, e: ast.AST, a: AVal, b: AVal) -> None:
+        """float ** x raises OverflowError beyond about 2**1024: the exponent has to be bounded (relative to the base)."""
+        import math
+        if a.kind != "float" and b.kind != "float":
+            return  # integer powers do not overflow (they may be large, that is a cost question)
+        fi = self.fi
+        in_scope = a.taint or b.taint or fi.module.name in self.cfg.div_all_modules
+        A = self.val_bounds(st, a)
+        B = self.val_bounds(st, b)
+        if a.const is not NOCONST and isinstance(a.const, (int, float)):
+            A = (a.const, a.const)
+        if b.const is not NOCONST and isinstance(b.const, (int, float)):
+            B = (b.const, b.const)
+        if b.const is not NOCONST and isinstance(b.const, (int, float)) and abs(b.const) <= 4:
+            # squares / cubes overflow only for magnitudes beyond 1e77: not decided (DESIGN 9.5, magnitudes are not tracked)
+            self.skip(e, "pow", "small constant exponent")
+            return
+        ok = False
+        if A[0] is not None and A[1] is not None:
+            m = max(abs(A[0]), abs(A[1]))
+            if m <= 1 and (B[0] is not None and B[0] >= 0):
+                ok = True
+            elif m > 0 and B[1] is not None and B[1] * math.log2(max(m, 1.0000001)) < 1000 and (A[0] > 0 or (B[0] is not None and B[0] >= 0)):
+                ok = True
+        if ok:
+            if in_scope:
+                self.oblige(st, e, "pow", "OverflowError", True, "power bounded", by=f"base in [{A[0]},{A[1]}], exponent in [{B[0]},{B[1]}]")
+            return
+        if not in_scope:
+            self.skip(e, "pow", "operands not derived from received data")
+            return
+        self.oblige(st, e, "pow", "OverflowError", False, f"the exponent of `{unparse(e)[:60]}` is not shown to be bounded: a float power overflows beyond 2**1024")
 
     def div_ob(self, st: St, e: ast.AST, b: AVal, B) -> None:
         if b.const is not NOCONST and b.const != 0:
